@@ -661,19 +661,26 @@ func (r *runner) awaitDec() bool {
 		return true
 	}
 	// pending reached zero: complete() runs the CAS and the callback synchronously
-	select {
-	case e := <-r.ev:
-		if e.kind == "callback" {
-			r.o.cb++
-			r.o.cbErr = append(r.o.cbErr, e.err != nil)
-			r.o.regAtCb, r.o.doneAtCb, r.o.failedAtCb = r.o.reg, r.o.done, r.failed
+	cbDeadline := time.After(2 * time.Second)
+	for {
+		select {
+		case e := <-r.ev:
+			switch e.kind {
+			case "callback":
+				r.o.cb++
+				r.o.cbErr = append(r.o.cbErr, e.err != nil)
+				r.o.regAtCb, r.o.doneAtCb, r.o.failedAtCb = r.o.reg, r.o.done, r.failed
+				return true
+			case "qdone":
+				// the sentinel behind a 'Q' stage's task: that task has ended, nothing to do with the callback
+				continue
+			}
+			r.o.timeout = "unexpected event " + e.kind + " while waiting for the callback"
+			return false
+		case <-cbDeadline:
+			// pending is zero, completed was false, yet no callback: observed as such
 			return true
 		}
-		r.o.timeout = "unexpected event " + e.kind + " while waiting for the callback"
-		return false
-	case <-time.After(2 * time.Second):
-		// pending is zero, completed was false, yet no callback: observed as such
-		return true
 	}
 }
 
